@@ -357,6 +357,43 @@ func teethFamily(thorough bool) [][][]ref.P {
 	return out
 }
 
+// moat3Family: a lake with TWO thin C-shaped ditches wrapped around it, all three in the same ring of pixels: the lake's
+// outline, both banks of both ditches and the islands between them snap to one and the same ring, so one group of equal
+// rings holds several outers and several inners of which all but one hole must cancel.  Eighth pixels.
+func moat3Family(thorough bool) [][][]ref.P {
+	var out [][][]ref.P
+	shell := rect(0, 0, 112, 112, false)
+	ditch := func(o0, o1, g int64) []ref.P {
+		i0, i1 := o0+1, o1-1
+		d := []ref.P{{g + 3, i1}, {g + 3, o1}, {o1, o1}, {o1, o0}, {o0, o0}, {o0, o1}, {g, o1}, {g, i1}, {i0, i1}, {i0, i0}, {i1, i0}, {i1, i1}}
+		if ref.Area2(d) > 0 {
+			for l, r := 0, len(d)-1; l < r; l, r = l+1, r-1 {
+				d[l], d[r] = d[r], d[l]
+			}
+		}
+		return d
+	}
+	lake := rect(30, 30, 82, 82, true)
+	gaps := [][2]int64{{40, 60}, {60, 40}}
+	rots := []int{0, 5}
+	if thorough {
+		gaps = append(gaps, [2]int64{40, 41}, [2]int64{33, 70})
+		rots = []int{0, 3, 5, 6, 11}
+	}
+	for _, g := range gaps {
+		a, b := ditch(24, 87, g[0]), ditch(27, 84, g[1])
+		for _, ra := range rotations(a, rots) {
+			for _, rb := range rotations(b, rots) {
+				if !ref.HoleOK(shell, nil, lake) || !ref.HoleOK(shell, [][]ref.P{lake}, rb) || !ref.HoleOK(shell, [][]ref.P{lake, rb}, ra) {
+					continue
+				}
+				out = append(out, [][]ref.P{shell, lake, ra, rb}, [][]ref.P{shell, ra, rb, lake}, [][]ref.P{shell, rb, lake, ra}, [][]ref.P{shell, ra, rb}, [][]ref.P{shell, rb, ra})
+			}
+		}
+	}
+	return out
+}
+
 func familyScopes(thorough bool) []Scope {
 	return append(handMadeFamilyScopes(thorough), cellScopes(thorough)...)
 }
@@ -372,6 +409,7 @@ func handMadeFamilyScopes(thorough bool) []Scope {
 		{Name: "F-touch", GS: GridSpec{Kind: "synth", Deepest: 1, Px: 1, Sub: 4, OffPx: [2]int64{1, 9}, TileWidth: 1}, Spec: lat.Spec{Explicit: touchFamily(thorough), Valid: true}, IDSets: [][]int{{1}}, Cfgs: keepCfgs},
 		{Name: "F-moat2", GS: GridSpec{Kind: "synth", Deepest: 1, Px: 1, Sub: 4, OffPx: [2]int64{1, 1}, TileWidth: 1}, Spec: lat.Spec{Explicit: moat2Family(thorough), Valid: true}, IDSets: [][]int{{1}}, Cfgs: keepCfgs},
 		{Name: "F-nested", GS: GridSpec{Kind: "synth", Deepest: 1, Px: 1, Sub: 4, OffPx: [2]int64{2, 3}, TileWidth: 1}, Spec: lat.Spec{Explicit: nestedFamily(thorough), Valid: true}, IDSets: [][]int{{1}}, Cfgs: keepCfgs},
+		{Name: "F-moat3", GS: synthGS(0, 8, [2]int64{1, 1}), Spec: lat.Spec{Explicit: moat3Family(thorough), Valid: true}, IDSets: one, Cfgs: keepCfgs},
 		{Name: "F-kiss", GS: synthGS(0, 4, [2]int64{0, 1}), Spec: lat.Spec{Explicit: kissFamily(thorough), Valid: true}, IDSets: one, Cfgs: keepCfgs},
 		{Name: "F-teeth", GS: GridSpec{Kind: "synth", Deepest: 1, Px: 1, Sub: 100, OffPx: [2]int64{1, 1}, TileWidth: 1}, Spec: lat.Spec{Explicit: teethFamily(thorough), Valid: true}, IDSets: [][]int{{1}}, Cfgs: keepCfgs},
 		{Name: "F-snake", GS: synthGS(0, 8, [2]int64{0, 2}), Spec: lat.Spec{Explicit: snakeFamily(thorough), Valid: true}, IDSets: one, Cfgs: keepCfgs},
